@@ -1,21 +1,30 @@
 (** C18 - Unknown extension content never alters standard content.
     Statements only; every proof is an [exact] of a lemma proved in Proofs/Xe*.v.
 
-    [extract_all pf64 pf32 fdiv d] is everything E57Reader::new extracts from the parsed document [d]
-    (root, extensions, point clouds, images); [pf64] / [pf32] stand for Rust's float parsers and
-    are arbitrary.  The insertion relations are defined in Spec/XeForeign.v:
+    [extract_all pf64 pf32 fdiv d] is everything E57Reader::new extracts from the parsed document
+    [d] (root, extensions, point clouds, images); [pf64] / [pf32] stand for Rust's float parsers,
+    [fdiv] for the one float division of the extractors; all three are arbitrary.
+    The insertion relations are defined in Spec/XeForeign.v:
       fattr_doc       namespaced attributes added to any elements (also inside prototypes)
-      fins_doc        C18 at full strength: foreign elements (namespace neither E57 nor none), any
-                      local name, any subtree, anywhere among the children of any element that is
-                      not a prototype, plus namespaced attributes anywhere
-      ins_doc         elements in ANY namespace whose subtree uses no local name the extractors look
-                      up, not inserted in front of a leading text node, plus namespaced attributes
-      fins_inert_doc  ins_doc with the inserted elements also required to be foreign
-    The full statement (forall d d', fins_doc d d' -> extract_all d' = extract_all d) is FALSE;
-    the three [C18_refuted_*] theorems are its counterexamples, the two positive theorems are the
-    parts of it that hold. *)
+      fins_doc = insert_foreign
+                      the property at full strength: elements of a foreign namespace (non-empty,
+                      not the E57 one) with any local name and any subtree, comments and processing
+                      instructions, inserted anywhere among the children of any element - before a
+                      standard sibling of the same name, as first child of a leaf, inside its text
+                      (the text node is split), anywhere in document order - except that among the
+                      direct children of a prototype only comments and processing instructions are
+                      inserted (a foreign ELEMENT there is an extension attribute); plus namespaced
+                      attributes anywhere; comments and processing instructions around the root.
+    With the repairs of the crate (xml::is_tag, xml::text, no descendants() lookups) the full
+    statement holds; the former counterexamples are now positive examples. *)
 From E57 Require Import Base.Prelude Model.Meta Model.MetaFile Model.XmlTree Model.XmlExtract
   Spec.XeForeign Proofs.XeLemmas Proofs.XeInert Proofs.XeRefute Proofs.XeExtRecords.
+
+(** Inserting foreign content anywhere outside a prototype changes nothing of what is extracted. *)
+Theorem C18_foreign_inert : forall (pf64 pf32 : xstr -> option N) (fdiv : N -> Z -> N) (d d' : xdoc),
+  insert_foreign d d' -> extract_all pf64 pf32 fdiv d' = extract_all pf64 pf32 fdiv d.
+Proof. exact extract_all_ins. Qed.
+Print Assumptions C18_foreign_inert.
 
 (** Namespaced attributes anywhere never change what is extracted ([attribute("x")] only sees
     attributes without a namespace). *)
@@ -24,82 +33,50 @@ Theorem C18_foreign_attrs_inert : forall (pf64 pf32 : xstr -> option N) (fdiv : 
 Proof. exact extract_all_fattr. Qed.
 Print Assumptions C18_foreign_attrs_inert.
 
-(** Inserted elements (whatever their namespace) none of whose elements has a looked-up local
-    name, not placed in front of a leading text node, and namespaced attributes: nothing changes. *)
-Theorem C18_foreign_elems_partial : forall (pf64 pf32 : xstr -> option N) (fdiv : N -> Z -> N) (d d' : xdoc),
-  ins_doc d d' -> extract_all pf64 pf32 fdiv d' = extract_all pf64 pf32 fdiv d.
-Proof. exact extract_all_ins. Qed.
-Print Assumptions C18_foreign_elems_partial.
-
-(** ... in particular for foreign elements *)
-Theorem C18_foreign_inert_partial : forall (pf64 pf32 : xstr -> option N) (fdiv : N -> Z -> N) (d d' : xdoc),
-  fins_inert_doc d d' -> extract_all pf64 pf32 fdiv d' = extract_all pf64 pf32 fdiv d.
-Proof. exact extract_all_fins_inert. Qed.
-Print Assumptions C18_foreign_inert_partial.
-
-(** [<ext:guid>] in front of [<guid>] is taken as the file GUID ([has_tag_name] ignores the namespace). *)
-Theorem C18_refuted_same_local_name :
-  exists d d', fins_doc d d' /\ forall pf64 pf32 fdiv, extract_all pf64 pf32 fdiv d' <> extract_all pf64 pf32 fdiv d.
-Proof. exact C18_refuted_same_local_name_proof. Qed.
-Print Assumptions C18_refuted_same_local_name.
-
-Theorem C18_refuted_same_local_name_values :
+(** The former counterexamples (corpus/XE/w_*.xml): [<ext:guid>] in front of [<guid>]; ... *)
+Theorem C18_same_local_name_example :
   fins_doc d_base d_same_name /\
-  forall pf64 pf32 fdiv, exists m m',
-    extract_all pf64 pf32 fdiv d_base = Ok m /\ extract_all pf64 pf32 fdiv d_same_name = Ok m' /\
-    rt_guid (fm_root m) = [114; 101; 97; 108] /\ rt_guid (fm_root m') = [102; 97; 107; 101].
+  forall pf64 pf32 fdiv, exists m,
+    extract_all pf64 pf32 fdiv d_base = Ok m /\ extract_all pf64 pf32 fdiv d_same_name = Ok m /\
+    rt_guid (fm_root m) = [114; 101; 97; 108].
 Proof. exact same_local_name_witness. Qed.
-Print Assumptions C18_refuted_same_local_name_values.
+Print Assumptions C18_same_local_name_example.
 
-(** A foreign element (or a comment) as first child of a leaf element: its text reads as absent
-    ([Node::text()] is the first child only if that child is text); a string becomes empty, ... *)
-Theorem C18_refuted_before_text :
-  exists d d', fins_doc d d' /\ forall pf64 pf32 fdiv, extract_all pf64 pf32 fdiv d' <> extract_all pf64 pf32 fdiv d.
-Proof. exact C18_refuted_before_text_proof. Qed.
-Print Assumptions C18_refuted_before_text.
-
-Theorem C18_refuted_before_text_values :
-  fins_doc d_base d_before_text /\
-  forall pf64 pf32 fdiv, exists m m' m'',
-    extract_all pf64 pf32 fdiv d_base = Ok m /\ extract_all pf64 pf32 fdiv d_before_text = Ok m' /\
-    extract_all pf64 pf32 fdiv d_comment_before_text = Ok m'' /\
-    rt_guid (fm_root m) = [114; 101; 97; 108] /\ rt_guid (fm_root m') = [] /\ rt_guid (fm_root m'') = [].
+(** ... a foreign element or a comment as first child of a leaf element: its text is still read; ... *)
+Theorem C18_before_text_example :
+  fins_doc d_base d_before_text /\ fins_doc d_base d_comment_before_text /\
+  forall pf64 pf32 fdiv, exists m,
+    extract_all pf64 pf32 fdiv d_base = Ok m /\ extract_all pf64 pf32 fdiv d_before_text = Ok m /\
+    extract_all pf64 pf32 fdiv d_comment_before_text = Ok m /\ rt_guid (fm_root m) = [114; 101; 97; 108].
 Proof. exact before_text_witness. Qed.
-Print Assumptions C18_refuted_before_text_values.
+Print Assumptions C18_before_text_example.
 
-(** ... and a number becomes the default "0": a file whose versionMajor is not a number is
-    rejected, the same file with a foreign element in front of that text is accepted. *)
-Theorem C18_refuted_before_text_number :
+(** ... a versionMajor that is not a number is rejected also with a foreign element in front of it; ... *)
+Theorem C18_before_text_number_example :
   fins_doc d_bad_number d_bad_number_hidden /\
   forall pf64 pf32 fdiv,
     extract_all pf64 pf32 fdiv d_bad_number = Err EInvalid /\
-    is_ok (extract_all pf64 pf32 fdiv d_bad_number_hidden) = true.
+    extract_all pf64 pf32 fdiv d_bad_number_hidden = Err EInvalid.
 Proof. exact before_text_number_witness. Qed.
-Print Assumptions C18_refuted_before_text_number.
+Print Assumptions C18_before_text_number_example.
 
-(** Lookups through [descendants()] (e57Root, data3D, images2D, the limit values) are captured by
-    a foreign subtree earlier in document order: a point cloud made only of foreign elements is
-    reported; a limit value is taken from a nested foreign element. *)
-Theorem C18_refuted_descendant_lookup :
-  exists d d', fins_doc d d' /\ forall pf64 pf32 fdiv, extract_all pf64 pf32 fdiv d' <> extract_all pf64 pf32 fdiv d.
-Proof. exact C18_refuted_descendant_lookup_proof. Qed.
-Print Assumptions C18_refuted_descendant_lookup.
-
-Theorem C18_refuted_descendant_lookup_values :
+(** ... a foreign subtree with elements called data3D / vectorChild / intensityMinimum earlier in
+    document order is not taken for the standard ones. *)
+Theorem C18_descendant_lookup_example :
   fins_doc d_data3d d_data3d_captured /\
-  forall pf64 pf32 fdiv, exists m m',
-    extract_all pf64 pf32 fdiv d_data3d = Ok m /\ extract_all pf64 pf32 fdiv d_data3d_captured = Ok m' /\
-    length (fm_pointclouds m) = 0%nat /\ length (fm_pointclouds m') = 1%nat.
+  forall pf64 pf32 fdiv, exists m,
+    extract_all pf64 pf32 fdiv d_data3d = Ok m /\ extract_all pf64 pf32 fdiv d_data3d_captured = Ok m /\
+    length (fm_pointclouds m) = 0%nat.
 Proof. exact descendant_lookup_witness. Qed.
-Print Assumptions C18_refuted_descendant_lookup_values.
+Print Assumptions C18_descendant_lookup_example.
 
-Theorem C18_refuted_descendant_lookup_limits :
+Theorem C18_descendant_lookup_limits_example :
   fins_doc d_limits d_limits_captured /\
-  forall pf64 pf32 fdiv, exists m m',
-    extract_all pf64 pf32 fdiv d_limits = Ok m /\ extract_all pf64 pf32 fdiv d_limits_captured = Ok m' /\
-    first_intensity_min m = Some (LInteger 1) /\ first_intensity_min m' = Some (LInteger 7).
+  forall pf64 pf32 fdiv, exists m,
+    extract_all pf64 pf32 fdiv d_limits = Ok m /\ extract_all pf64 pf32 fdiv d_limits_captured = Ok m /\
+    first_intensity_min m = Some (LInteger 1).
 Proof. exact descendant_lookup_limits_witness. Qed.
-Print Assumptions C18_refuted_descendant_lookup_limits.
+Print Assumptions C18_descendant_lookup_limits_example.
 
 (** Prototype records in an extension namespace with a prefix in scope - foreign namespace (any
     local name) or non-standard local name - are reported as Unknown{prefix, name} with their
